@@ -73,6 +73,28 @@ def run(ctx):
             recs[oid] = rec
             obs.append(observe(rec, oid))
     ctx.extra['table_debugids'] = 4 * len(ids)
+    # equal values in two fields: field B (any of the 9 fields, output or not) carries a part of field A
+    FIELDS = [('ts', 0, 8), ('a0', 8, 8), ('a1', 16, 8), ('a2', 24, 8), ('a3', 32, 8), ('tid', 40, 8), ('dbg', 48, 4),
+              ('cpu', 52, 4), ('unused', 56, 8)]
+    n = 0
+    for fa, oa, la in FIELDS:
+        for fb, ob, lb in FIELDS:
+            if fa == fb:
+                continue
+            for part in ('whole', 'top1', 'low1', 'top4', 'low4'):
+                for zero_rest in (False, True):
+                    rec = bytearray(64) if zero_rest else bytearray(rnd.getrandbits(8) for _ in range(64))
+                    a = bytes(rnd.getrandbits(8) | 1 for _ in range(la))
+                    rec[oa:oa + la] = a
+                    v = int.from_bytes(a, 'little')
+                    x = {'whole': v, 'top1': v >> (8 * la - 8), 'low1': v & 0xff, 'top4': v >> (8 * la - 32),
+                         'low4': v & 0xffffffff}[part]
+                    rec[ob:ob + lb] = (x & ((1 << (8 * lb)) - 1)).to_bytes(lb, 'little')
+                    oid = 'eq%d' % n
+                    n += 1
+                    recs[oid] = bytes(rec)
+                    obs.append(observe(bytes(rec), oid))
+    ctx.extra['cross_field_equalities'] = n
     ctx.sample({'record_hex': bases[2].hex(), 'decoded': {k: v for k, v in obs[2 * 16384].items() if k != 'r'}})
     n, rej, results = validate_observations('KdRecord_Val', obs, ctx.workdir, timeout=1800)
     ctx.traces += n
